@@ -51,6 +51,7 @@ type ksWorld struct {
 	touched [2]map[string]bool       // harness-side prediction of what each cache holds (state key only)
 	missed  [2]map[string]bool       // per instance: which kinds of lookups (get miss, has miss, has hit) touched which id since the last eviction/reopen. A cache may remember any of them differently, so they are part of the state key (an abstraction that merged "missed through GetKey" with "missed through HasKey" hid a seeded negative-caching defect)
 	nfill   int
+	held    []heldKey            // key objects handed out so far: they must stay the keys they were
 	expect  map[string][2]string // id -> independently computed (identity id, published key), for pre-seeded keys
 }
 
@@ -103,6 +104,30 @@ func (w *ksWorld) abstract(k string) string {
 	return k
 }
 
+type heldKey struct {
+	id  string
+	key crypto.PrivKey
+	raw []byte
+}
+
+// hold remembers a key object a caller received.
+func (w *ksWorld) hold(id string, k crypto.PrivKey) {
+	if len(w.held) < 12 {
+		w.held = append(w.held, heldKey{id, k, rawOf(k)})
+	}
+}
+
+// heldIntact: every key object handed out earlier still is the key it was (a cache that recycles or wipes the
+// objects it gave to callers changes keys under their feet).
+func (w *ksWorld) heldIntact() (string, bool) {
+	for _, h := range w.held {
+		if !bytes.Equal(rawOf(h.key), h.raw) {
+			return h.id, false
+		}
+	}
+	return "", true
+}
+
 func rawOf(k crypto.PrivKey) []byte {
 	b, _ := k.Raw()
 	return b
@@ -124,6 +149,16 @@ func ksPath(p []ksOp) string {
 
 // apply executes op, checks it against the model and returns false if the op is not enabled.
 func (w *ksWorld) apply(p *run.Part, o ksOp, c ksCase, judge bool) bool {
+	ok := w.applyOp(p, o, c, judge)
+	if ok && judge {
+		if id, intact := w.heldIntact(); !intact {
+			p.Violate("keystore", "C20:held-key-changed", "after "+ksPath(c.Path)+": the key object returned earlier for "+w.abstract(id)+" no longer is that key (its private bytes changed)", c)
+		}
+	}
+	return ok
+}
+
+func (w *ksWorld) applyOp(p *run.Part, o ksOp, c ksCase, judge bool) bool {
 	ctx := world.Ctx
 	ks := w.ks[o.I]
 	viol := func(key, what string) {
@@ -143,6 +178,7 @@ func (w *ksWorld) apply(p *run.Part, o ksOp, c ksCase, judge bool) bool {
 		}
 		w.created[o.ID] = rawOf(k)
 		w.touched[o.I][o.ID] = true
+		w.hold(o.ID, k)
 	case "get":
 		k, err := ks.GetKey(ctx, o.ID)
 		want, ok := w.created[o.ID]
@@ -161,6 +197,7 @@ func (w *ksWorld) apply(p *run.Part, o ksOp, c ksCase, judge bool) bool {
 			viol("C20:get-different-key", fmt.Sprintf("GetKey(%s) returned a key different from the one created", o.ID))
 		}
 		w.touched[o.I][o.ID] = true
+		w.hold(o.ID, k)
 	case "has":
 		has, err := ks.HasKey(ctx, o.ID)
 		_, ok := w.created[o.ID]
